@@ -12,7 +12,7 @@ SPEC = {
 }
 
 CLAIM = {
-    "text": "The real binary is configured through its admin API with generated ignore lists for the query log and for statistics (||class^ rules, plain names, wildcards, the root '|.^'), persistent clients flagged ignore_querylog / ignore_statistics and identified by exact IP, CIDR and ClientID, and anonymisation on or off. Queries carrying unique labels (mixed letter case) are sent from loopback aliases over UDP, TCP and plain-HTTP DoH with ClientIDs. Presence or absence of every label, of flagged clients and of un-anonymised addresses is then observed at all observation points: the query-log API, querylog.json (after a clean shutdown), the statistics API (totals, top domains, top clients) and the raw bytes of stats.db. The ignore list is also changed after entries were logged to check that the API stops returning them.",
+    "text": "The real binary is configured through its admin API with generated ignore lists for the query log and for statistics (||class^ rules, plain names, wildcards, the root '|.^'), persistent clients flagged ignore_querylog / ignore_statistics and identified by exact IP, CIDR and ClientID, and anonymisation on or off. Queries carrying unique labels (mixed letter case) are sent from loopback aliases over UDP, TCP and plain-HTTP DoH with ClientIDs. Presence or absence of every label, of flagged clients and of un-anonymised addresses is then observed at all observation points: the query-log API, querylog.json (after a clean shutdown), the statistics API (totals, top domains, top clients) and the raw bytes of stats.db. The ignore list is also changed after entries were logged to check that the API stops returning them. Added later: flagged clients saved again and updates refused while they send queries; a client flagged after its entries were stored, then anonymisation switched on; a restart followed by a read of the files only; ignored names rewritten to a name whose upstream exchange fails; static DHCP leases as runtime information inside a flagged network; AAAA questions of a flagged ClientID client under aaaa_disabled.",
     "note": "A package tier feeds crafted request contexts (IPv6, IPv4-mapped, ClientID) through the real server pipeline with the real query log, statistics and client registry wired as package home wires them; the system tier uses real sockets (every fourth configuration with a dual-stack listener). MAC-identified clients need a DHCP lease and are not exercised. Absence is asserted on byte level, so it cannot be fooled by the decoder.",
     "technique": "runtime monitor: unique-label tracing through log/statistics files and APIs of the real binary",
 }
